@@ -11,7 +11,7 @@
    took e from its queue. *)
 From Coq Require Import List ZArith Bool.
 Import ListNotations.
-From Goat Require Import Model.Client Proofs.ClientBase Proofs.ClientInv Proofs.ClientLog Proofs.ClientProps Proofs.ClientRoute.
+From Goat Require Import Model.Client Proofs.ClientBase Proofs.ClientInv Proofs.ClientLog Proofs.ClientProps Proofs.ClientRoute Proofs.ClientNI.
 Open Scope Z_scope.
 
 (* ids: the ids of calls are pairwise distinct as 64-bit values as long as fewer than 2^64 ids have been
@@ -88,8 +88,30 @@ Theorem C05_route_nobody : forall ls s, lrun init ls = Some s ->
 Proof. exact C05_route_nobody_l. Qed.
 Print Assumptions C05_route_nobody.
 
-(* non-interference, successes: a reply / a stream message reported to call c is the body of an envelope that c took
-   from its own queue, that was read from the transport with c's id and routed to c *)
+(* non-interference, every API return of call c (record k) is justified by the sub-history carrying c's id - the
+   envelopes c itself took from its queue: all carry c's id and were routed to c -, by c's own context, or by the
+   connection-wide read failure, and by nothing else:
+   - a unary result is the classification of the FIRST envelope c took, or a non-response error [jerr];
+   - a stream message is the body of an envelope c took (order: C05_route_exact + the loop hands over in take order);
+   - every error of RecvMsg / Header / SendMsg / CloseSend / NewStream [jerr s c k x]: Canceled / DeadlineExceeded only
+     if c's OWN context is done, the connection error only if the read failure is recorded, EClosed / EWrite /
+     EUnmarshal (c's own unregistration, transport write, message), anything else (status, EOF, reset, undecodable
+     metadata) only if an envelope c took says so;
+   - Header metadata is the header of the first envelope c took; Trailer metadata is the trailer of an envelope c took. *)
+Theorem C05_noninterference : forall ls s, lrun init ls = Some s ->
+  forall c k, nth_error (calls s) c = Some k ->
+    (forall e, In e (taken c (log s)) -> eid e = k_id k /\ In (EvRead e (Some c)) (log s)) /\
+    (forall r, In (EvUnaryRet c r) (log s) -> junary s c k r) /\
+    (forall b, In (EvRecvRet c (RMsg b)) (log s) -> exists e, In e (taken c (log s)) /\ ebody e = Some b) /\
+    (forall x, In (EvRecvRet c (RErr x)) (log s) -> jerr s c k x) /\
+    (forall v, In (EvHeaderRet c v) (log s) -> jlatch s c k v) /\
+    (forall t, In (EvTrailerRet c (Some t)) (log s) -> jtrl s c (MdOk t)) /\
+    (forall x, In (EvSendRet c (Some x)) (log s) \/ In (EvCloseSendRet c (Some x)) (log s) \/ In (EvOpenRet c (Some x)) (log s) ->
+               jerr s c k x).
+Proof. exact C05_noninterference_l. Qed.
+Print Assumptions C05_noninterference.
+
+(* (the round-1 form, kept: successes are bodies of envelopes of the call) *)
 Theorem C05_noninterference_partial : forall ls s, lrun init ls = Some s ->
   (forall c b, In (EvUnaryRet c (UOk b)) (log s) -> backed s c b) /\
   (forall c b, In (EvRecvRet c (RMsg b)) (log s) -> backed s c b).
